@@ -133,6 +133,8 @@ type Decl struct {
 	Cmds     []*Cmd
 	Grps     []*Grp
 	nextID   int
+	// CacheTypes: the model will not change any more; reuse the struct types across Build calls
+	CacheTypes bool
 }
 
 func (d *Decl) NewID() int { d.nextID++; return d.nextID }
@@ -306,6 +308,9 @@ var plainTypes = []reflect.Type{
 // structType builds the Go struct type of a group. cmd is non-nil when g is the struct in which the
 // command's positional arguments and tag-declared sub-commands live.
 func (d *Decl) structType(g *Grp, cmd *Cmd) reflect.Type {
+	if d.CacheTypes && g.typ != nil {
+		return g.typ // the model is frozen: field indices were assigned when the type was first built
+	}
 	var fs []reflect.StructField
 	add := func(name string, t reflect.Type, tag string) int {
 		fs = append(fs, reflect.StructField{Name: name, Type: t, Tag: reflect.StructTag(tag)})
